@@ -234,6 +234,8 @@ def gen_index(rng, n, allow_oob=True):
     m = [rng.random() < 0.6 for _ in range(n)]
     if allow_oob and rng.random() < 0.03 and n > 1:
         m = m[:-1]
+    elif rng.random() < 0.03:
+        m = m[:1]       # one-element masks are broadcast by numpy
     return (m if kind == 'boollist' else np.array(m, dtype=bool)), [0, [int(x) for x in m]], kind
 
 
@@ -420,7 +422,7 @@ def gen_criterion(rng, ob, key):
 TIME = ['dumps', 'timerange', 'scans', 'compscans', 'targets', 'target_tags']
 FREQ = ['channels', 'freqrange']
 CORR = ['corrprods', 'ants', 'inputs', 'pol']
-RESETS = [None] * 8 + ['auto', '', '', 'T', 'F', 'B', 'TF', 'TB', 'FB', 'TFB', 'FT', 'BFT', 'BT']
+RESETS = [None] * 16 + ['auto', '', '', 'T', 'F', 'B', 'TF', 'TB', 'FB', 'TFB', 'FT', 'BFT', 'BT']
 
 
 def gen_call(rng, ob):
@@ -494,9 +496,14 @@ PUBLIC = ['dumps', 'channels', 'cps', 'shape', 'ants', 'inputs', 'nts', 'scans',
 
 
 def call_signature(call, symptom, err=None):
-    crit = sorted('%s:%s' % (k, f) for (k, v, w, f) in call if k != 'reset')
+    """Shape of the failing call: which dimensions its criteria touch, special keywords, reset class, symptom."""
+    dims = ''.join(sorted({('T' if k in TIME else 'F' if k in FREQ else 'B') for (k, v, w, f) in call
+                           if k in TIME + FREQ + CORR}))
+    cls = {'weights': 'wf', 'flags': 'wf', 'strict': 'strict', 'spw': 'spw', 'subarray': 'spw'}
+    other = sorted({cls.get(k, 'unknown') for (k, v, w, f) in call if k not in TIME + FREQ + CORR and k != 'reset'})
     reset = [v for (k, v, w, f) in call if k == 'reset']
-    return 'criteria=%s;reset=%s;symptom=%s' % (','.join(crit) or 'none', repr(reset[0]) if reset else 'absent', symptom)
+    rcls = 'absent' if not reset else ('auto' if reset[0] == 'auto' else 'stack' if reset[0] == '' else 'explicit')
+    return 'dims=%s;other=%s;reset=%s;symptom=%s' % (dims or '-', ','.join(other) or '-', rcls, symptom)
 
 
 def f18_form(call):
@@ -566,11 +573,13 @@ def run_history(ctx, ob, history, mouts, hid, note=True):
                 ctx.note_case((hkey, n), nontrivial=True, sample=None)
             continue
         # model state
+        diverged = False
         if (cur['tk'], cur['fk'], cur['bk']) != (mo[1], mo[2], mo[3]):
             dimbad = ''.join(x for x, a, b in (('T', cur['tk'], mo[1]), ('F', cur['fk'], mo[2]), ('B', cur['bk'], mo[3])) if a != b)
             ctx.disagree(call_signature(call, 'masks_differ_from_model:' + dimbad), case,
                          [cur['tk'], cur['fk'], cur['bk']], [mo[1], mo[2], mo[3]],
                          'selection masks differ from the model', spec=so[1:], kind='tie')
+            diverged = True
         mkeys = [''.join(chr(c) for c in k) for k in mo[4]]
         if cur['keys'] != mkeys:
             ctx.disagree(call_signature(call, 'selection_keys'), case, cur['keys'], mkeys,
@@ -580,13 +589,18 @@ def run_history(ctx, ob, history, mouts, hid, note=True):
             if exp_id != mid:
                 ctx.disagree(call_signature(call, nm + '_keep'), case, repr(val), mid,
                              '_%s_keep differs from the model' % nm, kind='tie')
+        if diverged and (so[1], so[2], so[3]) == (mo[1], mo[2], mo[3]):
+            return
         # ---- property: implementation vs spec, on the public observables
         exp = expected_from_masks(ob, so[1], so[2], so[3])
         bad = [k for k in PUBLIC if cur[k] != exp[k]]
         if bad:
-            ctx.disagree(call_signature(call, 'selection_differs_from_spec:' + ','.join(bad)), case,
+            dimbad = ''.join(x for x, ks in (('T', ('dumps', 'nts', 'scans', 'compscans', 'targets')), ('F', ('channels',)),
+                                            ('B', ('cps', 'ants', 'inputs'))) if any(k in bad for k in ks)) or 'shape'
+            ctx.disagree(call_signature(call, 'selection_differs_from_spec:' + dimbad), case,
                          {k: cur[k] for k in bad}, {k: exp[k] for k in bad},
                          'selection after the call differs from the documented combination rule', spec=so[1:])
+            return      # the chains have diverged: later calls of this history would only repeat the finding
         full = all(so[1]) and all(so[2]) and all(so[3])
         empty = not (any(so[1]) and any(so[2]) and any(so[3]))
         if note:
@@ -639,11 +653,10 @@ def run(ctx):
     logging.getLogger('katpoint').setLevel(logging.ERROR)
     rng = ctx.rng
     # 1. known-finding witnesses first
+    if not ctx.model_ok and not search_without_model(ctx):
+        return
     for f in ctx.findings:
-        if ctx.model_ok:
-            run_witness(ctx, f['witness'])
-    if not ctx.model_ok:
-        return search_without_model(ctx)
+        run_witness(ctx, f['witness'])
     # 2. random histories
     nobs = ctx.scale(25, 300)
     per_obs = ctx.scale(60, 100)
@@ -662,6 +675,12 @@ def run(ctx):
     # 4. cross-check of the extraction inside Coq (thorough tier)
     if ctx.tier == 'thorough':
         from vh import core
+        # the thorough tier's clean rebuild only restores the cone of Props/C02.v: make sure the dispatcher's
+        # dependencies (all Model/*.vo) are compiled before evaluating cases inside Coq
+        with core.BuildLock():
+            tg = ' '.join(x[:-2] + '.vo' for x in core.coq_sources() if x.startswith(('Base/', 'Gen/', 'Model/')))
+            core.sh('timeout 1500 make -j4 %s' % tg, cwd=core.COQ, timeout=1600)
+            core.sh('timeout 600 coqc -Q . KV Extract/Dispatch.v', cwd=core.COQ, timeout=700)
         sample = all_cases[:40]
         outs = core.run_model_in_coq([c for c, _ in sample], 'c02')
         for (c, mo), o in zip(sample, outs):
@@ -743,9 +762,15 @@ def exhaustive_pairs(ctx):
 
 
 def search_without_model(ctx):
-    """No model binary (model does not compile): nothing to compare against; the pipeline reports the broken
-    obligation with no-failing-input-found."""
-    return None
+    """The translator or the model build failed (broken tie): search for a failing input against the last model
+    binary that was built from a good tree, if there is one; otherwise there is nothing to compare against and the
+    pipeline reports the broken obligation with no-failing-input-found."""
+    import os
+    from vh import core
+    if os.path.exists(os.path.join(core.EXTRACT_DIR, 'driver')):
+        ctx.extra['searched_with_last_good_model'] = True
+        return True
+    return False
 
 
 def replay(ctx, doc):
